@@ -362,6 +362,11 @@ struct InflateSession {
                 if (!dict.empty() || need_dict_zlib)
                         return true; // documented: dictionaries are not supported by the stateless call
                 size_t cap = std::max<size_t>(plain.size(), 4096) + 70000;
+                uint64_t osz = (uint64_t) plan.geti("os_out");
+                if (osz) { // a sink smaller than the data: documented answer ISAL_OUT_OVERFLOW, never a write past avail_out
+                        cap = (size_t) (osz % (plain.size() + 2));
+                        COUNT("io.oneshot_small_sink");
+                }
                 Slot *ss = g_arena.alloc(sizeof(struct inflate_state), PLACE_END, "os_state", fill + 11, 8);
                 Slot *si = g_arena.alloc(bytes.size(), place, "os_in", 0, 1), *so = g_arena.alloc(cap, PLACE_END, "os_out", fill + 12, 1);
                 if (!ss || !si || !so)
@@ -729,7 +734,7 @@ struct InflateSession {
                                 rr.fail("C06.error_class", strf("single fault '%s' (ends at byte %llu of %zu): expected status %d, streaming decoder ended with ret %d finished %d unfinished %d", gfault ? grammar_fault_name(gfault) : "wrapper/trailer", (unsigned long long) fault_end_byte, bytes.size(), expect_class, final_ret, (int) finished, (int) unfinished));
                                 return;
                         }
-                        if (os1.ran && os1.ret != expect_class) {
+                        if (os1.ran && os1.ret != ISAL_OUT_OVERFLOW && os1.ret != expect_class) { // a full sink may be reported first
                                 rr.fail("C06.error_class", strf("single fault '%s': expected status %d, one-shot decoder returned %d", gfault ? grammar_fault_name(gfault) : "wrapper/trailer", expect_class, os1.ret));
                                 return;
                         }
@@ -802,6 +807,7 @@ static Json gen_inflate(Rng &r0, const std::string &focus, int tier)
         int fmt = (int) r.below(3);
         if (focus == "C11")
                 fmt = 1 + (int) r.below(2);
+        p.set("os_out", r.chance(1, 6) ? (int64_t) (1 + r.logsize(200000)) : 0);
         p.set("fmt", fmt).set("mode", (int) r.below(4)).set("zlevel", (int) r.below(4)).set("ihb", (int) (r.chance(1, 4) ? 15 : 0));
         Json src = Json::obj();
         int kind = (int) r.below(3);
